@@ -80,6 +80,21 @@ def _make_first_graph(
     return graph
 
 
+def _choose_leaders(graph: dict[str, set[str]], scc: set[str]) -> set[str]:
+    """A set of rules that has a member on every cycle within the component."""
+    leader = min(scc)
+    rest = scc - {leader}
+    subgraph = {name: graph[name] & rest for name in rest}
+
+    leaders = {leader}
+    for subscc in sccutils.strongly_connected_components(rest, subgraph):  # type: ignore
+        if len(subscc) > 1:
+            leaders |= _choose_leaders(subgraph, set(subscc))
+        elif (name := min(subscc)) in subgraph[name]:
+            leaders.add(name)
+    return leaders
+
+
 def mark_left_recursion(rules: Iterable[Rule]) -> list[Rule]:
     rules = list(rules)
     rule_index = {rule.name: i for i, rule in enumerate(rules)}
@@ -107,11 +122,14 @@ def mark_left_recursion(rules: Iterable[Rule]) -> list[Rule]:
                 if not leaders:
                     break
 
-            if not leaders:
-                leaders = set(scc)
+            if leaders:
+                leaders = {min(leaders)}
+            else:
+                # NOTE: no rule is common to all cycles, so one leader is not enough
+                leaders = _choose_leaders(graph, set(scc))
 
-            leader_name = min(leaders)
-            rules[rule_index[leader_name]].is_lrec = True
+            for leader_name in leaders:
+                rules[rule_index[leader_name]].is_lrec = True
 
         elif len(scc) == 1:
             name = min(scc)
